@@ -3,7 +3,7 @@
 fail-fast, real binary vs Build.v; model-free oracles: exit status, names on stderr, who ran, what is
 in cache/target afterwards, and that the next build attempts the failed targets again."""
 import json, os
-import vlib, buildlib as bl, histcheck as hc
+import vlib, buildlib as bl, histcheck as hc, c13w
 from c13 import cur_snap
 
 GUARDS = []
@@ -57,7 +57,8 @@ def cache_half(out, tier):
     batch = hc.run_batch(plans, vlib.seed() + 5)
     hc.check_plan_errors(batch)
     findings = {f["class"]: f for f in vlib.known_findings("C05")}
-    evals = 0
+    # a target that failed AFTER its command ran (post-execution check) is attempted again by the next build, also when it was tainted
+    evals = c13w.witness_failed_check_keeps_taint(out)
     for name, h, notes, m in batch:
         for note in notes:
             bi = note[1]; b = h.builds[bi]
